@@ -139,7 +139,7 @@ String& String::replace(const String& needle, const String& replacement)
 {
   if(needle.isEmpty())
     return *this; // an empty needle matches everywhere without consuming anything
-  const char* p = data->str;
+  const char* p = *this; // attached memory need not be NUL terminated
   const char* match = strstr(p, needle);
   if(!match)
     return *this;
